@@ -60,7 +60,7 @@ CLAIMS = [
                       "session state exists, each mutator writes exactly the input field(s) it is named after under a guard on that "
                       "same field, and optional-companion probing reads only the tracked accessors.",
         "level_note": "Trusted: salsa's revision/memo logic; callers announce disk changes via refresh_disk. NOT decided: equality of "
-                      "answers over concrete histories, lru=1 re-materialisation equality. Known finding F6 (intern_pending) is listed.",
+                      "answers over concrete histories, lru=1 re-materialisation equality. Known findings F6 (intern_pending) and F72 (path identity resolves symbolic links inside tracked queries: a retargeted link on an import path is never reflected; findings/replay/f72) are listed.",
     },
     {
         "id": "C17",
